@@ -164,8 +164,66 @@ func runC20(seed uint64, n int, out, stats string, _ []string) {
 		}
 		c.End(halt == 1 || wc != 0 || mode >= 4, fmt.Sprintf("mode%d", mode))
 	}
+	// ---- node level: the power table of a block holds exactly the validators recorded as present in it --------
+	// (the decision functions above are fed a table; this part ties the table to the block's commit info)
+	powerBlocks := 0
+	{
+		nd := newNode(&GenesisSpec{NAccounts: 6, Balance: pip(1000000), NVals: 5, Stakes: []*big.Int{pip(10000), pip(12000), pip(15000), pip(20000), pip(9000)}})
+		for b := 0; b < 10+n/200 && b < 60; b++ {
+			opts := &BlockOpts{Absent: map[int]bool{}, Omit: map[int]bool{}}
+			for i := 0; i < 5; i++ {
+				switch r.Intn(6) {
+				case 0:
+					opts.Absent[i] = true
+				case 1:
+					opts.Omit[i] = true
+				}
+			}
+			if len(opts.Omit)+len(opts.Absent) >= 4 { // keep absences rare enough not to drop validators all the time
+				opts.Absent = map[int]bool{}
+			}
+			hh := nd.Height + 1
+			opts.AfterBegin = func() {
+				got, gotTotal := nd.App.VerifPowers()
+				want := map[types.Pubkey]*big.Int{}
+				wantTotal := big.NewInt(0)
+				for _, v := range nd.App.VerifStateDeliver().Validators.GetValidators() {
+					idx := -1
+					for k, x := range nd.Vals {
+						if x.Pub == v.PubKey {
+							idx = k
+						}
+					}
+					if idx < 0 || opts.Omit[idx] || opts.Absent[idx] || v.IsToDrop() {
+						continue
+					}
+					want[v.PubKey] = v.GetTotalBipStake()
+					wantTotal.Add(wantTotal, v.GetTotalBipStake())
+				}
+				if wantTotal.Sign() == 0 {
+					wantTotal = big.NewInt(1)
+				}
+				okp := gotTotal.Cmp(wantTotal) == 0 && len(got) == len(want)
+				for k, v := range want {
+					if got[k] == nil || got[k].Cmp(v) != 0 {
+						okp = false
+					}
+				}
+				powerBlocks++
+				if !okp {
+					mon = append(mon, MonitorFailure{What: fmt.Sprintf("C20: block %d: the voting-power table holds %d validators with total %s; the validators recorded as present in this block (signed, not dropped; absent %v, not in the commit info %v) are %d with total %s", hh, len(got), gotTotal, opts.Absent, opts.Omit, len(want), wantTotal),
+						Key: "c20-powers-not-present", Replay: fmt.Sprintf("vharness c20 -seed %d -n %d (node-level block %d)", seed, n, b)})
+				}
+			}
+			if br := nd.Block(nil, opts); br.Panic != "" {
+				mon = append(mon, MonitorFailure{What: "panic: " + br.Panic, Key: "c07-panic"})
+				break
+			}
+		}
+		nd.Cleanup()
+	}
 	c.Close()
 	writeStats(stats, &Stats{Property: "C20", Seed: seed, Cases: c.NCases, Ops: c.NOps, NonTrivial: c.NonTriv,
-		Rule: "validator power vector (1-9 validators; equal / tiny / 10^30 / 10^40 / steered to 3*voted = 2*total +-2) with 1-3 competing proposals per kind, decided by the real Blockchain.isApplicationHalted / isUpdateCommissionsBlockV2 / isUpdateNetworkBlockV2; non-trivial = something was accepted or the case is a boundary case; distinct = distinct case text",
-		Dist: c.Dist, Samples: c.Samples, Monitor: mon, Extra: map[string]interface{}{"boundary_cases": boundary}})
+		Rule: "validator power vector (1-9 validators; equal / tiny / 10^30 / 10^40 / steered to 3*voted = 2*total +-2) with 1-3 competing proposals per kind, decided by the real Blockchain.isApplicationHalted / isUpdateCommissionsBlockV2 / isUpdateNetworkBlockV2; node level: on a real chain with signed / absent / missing commit-info entries the power table built by BeginBlock must hold exactly the validators recorded as present; non-trivial = something was accepted or the case is a boundary case; distinct = distinct case text",
+		Dist: c.Dist, Samples: c.Samples, Monitor: mon, Extra: map[string]interface{}{"boundary_cases": boundary, "blocks_with_power_table_checked": powerBlocks}})
 }
